@@ -164,7 +164,15 @@ def gen_case(rng):
         extra = "SELECT ?s ?o WHERE { ?s (<urn:e:p>|<urn:e:q>)%s ?o }" % rng.choice(["+", "*", "?", ""])
     elif k < 0.25:
         extra = "SELECT ?s (COUNT(?o) AS ?n) (MIN(?o) AS ?m) WHERE { ?s <urn:e:%s> ?o } GROUP BY ?s" % rng.choice("pq")
-    return dict(kind="meta", where=where, text=extra, data=[[enc(x) for x in t] for t in triples], data2=[[enc(x) for x in t] for t in triples2],
+    extra2 = None
+    if 0.25 <= k < 0.33:
+        # a sub-select with a slice as a join operand, written first or second: the slice applies to the sub-select once, not per joined row
+        # only ?s is projected and ordered on: rows that tie are identical, so the slice is determined
+        mods = rng.choice(["ORDER BY ?s OFFSET 1", "ORDER BY ?s LIMIT 1", "ORDER BY DESC(?s) OFFSET 1 LIMIT 2", "ORDER BY ?s OFFSET 2", "ORDER BY ?s OFFSET 0", "ORDER BY ?s LIMIT 5"])
+        proj = rng.choice(["?s", "DISTINCT ?s"])
+        A = "?s <urn:e:p> ?o ."; B = "{ SELECT %s WHERE { ?s <urn:e:q> ?x } %s }" % (proj, mods)
+        extra = "SELECT * WHERE { %s %s }" % (A, B); extra2 = "SELECT * WHERE { %s %s }" % (B, A)
+    return dict(kind="meta", where=where, text=extra, text2=extra2, data=[[enc(x) for x in t] for t in triples], data2=[[enc(x) for x in t] for t in triples2],
                 rel=rng.choice(["perm", "swap", "rename", "spell", "init", "initns", "prep", "store", "store"]), rseed=rng.randrange(1 << 30))
 
 
@@ -313,6 +321,10 @@ def run_case(case, st=None):
                     return ("prepared-query-state", "%s\nevaluation %d of the prepared query (graph %s) differs from a fresh parse: fresh=%s prepared=%s" % (
                         text, i, "A" if gg is g else "B", f_exc or [sorted(m) for m in (fresh - prep)][:2], p_exc or [sorted(m) for m in (prep - fresh)][:2]))
         elif rel == "store":
+            if case.get("text2"):
+                other = ms(g.query(case["text2"]))
+                st["swap-subselect-slice"] = st.get("swap-subselect-slice", 0) + 1
+                if other != base: return differ("operand-swap", other, case["text2"])
             for name in ("SimpleMemory", "Auditable"):
                 other = ms(build(triples, name).query(text))
                 st["store:" + name] = st.get("store:" + name, 0) + 1
